@@ -143,7 +143,7 @@ def run(ctx):
     ok = False
     for (sw, t_t, f_t, cbb) in cont:
         t = M.blocks[cbb]["term"]
-        if (op_const(t["args"][1]) or {}).get("int") == 10 and not (t.get("macro") or "").startswith("debug_assert"):
+        if (op_const(t["args"][1]) or {}).get("int") == 10 and not (t.get("macro") or "").startswith("debug_assert") and not mba.config_guards(cbb):
             recv = mba.ref_chain(op_local(t["args"][0]))
             if 2 in recv or any(l == 2 for l in backward_direct(M, op_local(t["args"][0]))[0]):
                 if wr and all(mba.edge_dominates((sw, f_t), w) for w in wr):
